@@ -54,13 +54,18 @@ AuthzFull == {{}} \cup {{s} : s \in ScopesU} \cup {ScopesU} \cup {ScopesU \ {s} 
 Csr(u, d, i, e) == [uris |-> u, dns |-> d, ips |-> i, emails |-> e]
 Sign(csr, a) == [t |-> "sign", csr |-> csr, authz |-> a]
 
+\* a request that ASKS to be a CA (basicConstraints CA:TRUE, keyUsage keyCertSign among its extensions): the decision is the
+\* same as without them, and whatever is issued is still not a CA (CATrace: leaf-not-ca)
+CsrCA(u) == Csr(u, 0, 0, 0) @@ [ext |-> "ca"]
 SignFull ==
        {Sign(Csr(<<s>>, 0, 0, 0), a) : s \in ShapesFull, a \in AuthzFull}
+  \cup {Sign(CsrCA(<<s>>), ScopesU) : s \in ShapesCore}
   \cup {Sign(Csr(<<s>>, d, i, e), ScopesU) : s \in ShapesCore, d \in {0, 2}, i \in {0, 1}, e \in {0, 1}}
   \cup {Sign(Csr(<<>>, d, 0, 0), ScopesU) : d \in {0, 1}}
   \cup {Sign(Csr(<<s1, s2>>, 0, 0, 0), a) : s1 \in ShapesCore, s2 \in ShapesCore, a \in {ScopesU, {}}}
 
 SignSmall ==
+  {Sign(CsrCA(<<Sh("service", "own", "own", "web", "plain", "none")>>), ScopesU)} \cup
   {Sign(Csr(<<s>>, 0, 0, 0), a) :
      s \in {Sh("service", "own", "own", "web", "plain", "none"), Sh("agent", "foreign", "own", "web", "plain", "none"),
             Sh("mesh-gateway", "ownUpper", "own", "", "pct", "none"), Sh("service", "foreign", "own", "web", "plain", "none")},
